@@ -546,6 +546,8 @@ class Interp:
             v = self._module_const(e.id)
             if v is not None:
                 return v
+            if self.module is not None and e.id in self.module.functions:
+                return ("fn", e.id)
             raise Undecided("unbound name %s" % e.id)
         if isinstance(e, ast.Attribute):
             dn = dotted(e)
@@ -555,6 +557,8 @@ class Interp:
                 return self.attr[dn]
             if e.attr == "T":
                 return self.ev(e.value)
+            if dn is not None and not dn.startswith("self."):
+                return ("fn", dn)            # a library / helper callable used as a value (fn = st.poisson.logpmf if log else ...)
             raise Undecided("unknown attribute %s" % norm(e))
         if isinstance(e, ast.UnaryOp):
             v = self.ev(e.operand)
@@ -582,6 +586,14 @@ class Interp:
             raise Undecided("operator %s" % type(e.op).__name__)
         if isinstance(e, ast.Call):
             dn = dotted(e.func)
+            fv = None
+            if isinstance(e.func, ast.Name) and isinstance(self.env.get(e.func.id), tuple):
+                fv = self.env[e.func.id]
+            elif not isinstance(e.func, (ast.Name, ast.Attribute)):
+                fv = self.ev(e.func)             # (a if flag else b)(...),  table[flag](...)
+            if isinstance(fv, tuple) and len(fv) == 2 and fv[0] == "fn":
+                call2 = ast.Call(func=ast.parse(fv[1], mode="eval").body, args=e.args, keywords=e.keywords)
+                return self.ev(ast.copy_location(call2, e))
             if self.call_hook is not None:
                 r = self.call_hook(dn, e, self)
                 if r is not None:
@@ -627,6 +639,39 @@ class Interp:
             if a == b:
                 return a
             raise Undecided("conditional expression with different arms")
+        if isinstance(e, (ast.List, ast.Tuple)):
+            return [self.ev(x) for x in e.elts]
+        if isinstance(e, ast.Dict):
+            out = {}
+            for k, v in zip(e.keys, e.values):
+                kk = self.ev(k)
+                if not (isinstance(kk, (bool, int, str)) or kk is None):
+                    raise Undecided("dict key %s" % norm(k))
+                out[kk] = self.ev(v)
+            return out
+        if isinstance(e, ast.Subscript):
+            base = self.ev(e.value)
+            if isinstance(base, list) and isinstance(e.slice, ast.Slice):
+                def _b(x):
+                    if x is None:
+                        return None
+                    v = self.ev(x)
+                    if isinstance(v, Rat) and v.is_const():
+                        v = int(v.const_value())
+                    if isinstance(v, bool) or not isinstance(v, int):
+                        raise Undecided("slice bound %s" % norm(x))
+                    return v
+                return base[_b(e.slice.lower):_b(e.slice.upper):_b(e.slice.step)]
+            if isinstance(base, (list, dict)):
+                k = self.ev(e.slice)
+                if isinstance(k, Rat) and k.is_const():
+                    k = int(k.const_value())
+                if isinstance(base, list) and isinstance(k, int) and not isinstance(k, bool) and -len(base) <= k < len(base):
+                    return base[k]
+                if isinstance(base, dict) and (isinstance(k, (bool, int, str)) or k is None) and k in base:
+                    return base[k]
+                raise Undecided("subscript %s" % norm(e))
+            raise Undecided("subscript of %s" % norm(e.value))
         if isinstance(e, ast.Compare) or isinstance(e, ast.BoolOp):
             t = self.test(e)
             if t is None:
@@ -728,6 +773,21 @@ class Interp:
                         raise Undecided("branches of `if %s` give different values" % norm(st.test)[:60])
                     self.env, self.ret = a.env, a.ret
                     return self.ret is not None
+            elif isinstance(st, ast.For) and not st.orelse:
+                seq = self.ev(st.iter)
+                if not isinstance(seq, list):
+                    raise Undecided("loop over %s" % norm(st.iter))
+                for item in seq:
+                    if isinstance(st.target, ast.Name):
+                        self.env[st.target.id] = item
+                    elif isinstance(st.target, ast.Tuple) and isinstance(item, list) and len(item) == len(st.target.elts) and all(isinstance(t_, ast.Name) for t_ in st.target.elts):
+                        for t_, v_ in zip(st.target.elts, item):
+                            self.env[t_.id] = v_
+                    else:
+                        raise Undecided("loop target %s" % norm(st.target))
+                    self.run(st.body)
+                    if self.ret is not None:
+                        return True
             elif isinstance(st, (ast.Raise, ast.Assert, ast.Pass)):
                 if isinstance(st, ast.Raise):
                     self.ret = "raise"
